@@ -1,7 +1,7 @@
 import CattrsModel.Sexp
 import CattrsModel.Core.Wire
 import CattrsModel.Disambig.Driver
-import CattrsModel.Subclasses.Lemmas
+import CattrsModel.Subclasses.Plain
 /-!
 # Line-protocol operation of the `include_subclasses` model (driver only)
 
@@ -91,6 +91,11 @@ def casesOfSexp (cases : List Sexp) : Option (List (Nat × Obj)) :=
     | .list [k, x] => do pure ((← atomNat? k), (← objOfSexp x))
     | _ => Option.none)
 
+/-- the `hierarchy` scope bit: the hypothesis of `C14_discovery_complete` (classes created after their bases) and its
+conclusion evaluated on this tree (every class statement of the tree is found by the walk over `__subclasses__()`) -/
+def hierarchyB (tr : Tree) : Bool :=
+  tr.parentsBelowB && (List.range tr.size).all (fun c => tr.unionClasses.contains c)
+
 def answer (S : Setup) (cs : List (Nat × Obj)) : List Sexp :=
   let outs := cs.map (fun (K, x) =>
     let u := S.un K x
@@ -100,7 +105,7 @@ def answer (S : Setup) (cs : List (Nat × Obj)) : List Sexp :=
                sexpOfRes (S.roundTrip K x),
                ofBool (caseInScope S K x)])
   [.list [.atom "apply", ofBool S.applyOk]] ++
-    (scopeBits S).map (fun (n, b) => .list [.atom "scope", .atom n, ofBool b]) ++
+    ((scopeBits S) ++ [("hierarchy", hierarchyB S.tr)]).map (fun (n, b) => .list [.atom "scope", .atom n, ofBool b]) ++
     [.list (.atom "cases" :: outs)]
 
 /-- `SUBCLSN (<tree>…) <strategy> <forbid> <rev> <inherit 0|1> (<case>…)`: the strategy applied once per tree, in
